@@ -133,6 +133,10 @@ func ruleEScopeThread(p *Program, r *Reporter) {
 					case *ssa.Phi:
 						if recvIsScope {
 							r.Trivial(in.Pos(), key, "scope chain walk inside a scope method")
+						} else if fn == d.evalFn && loopScopeVar(a, scopeParam, isScope) {
+							// the dispatcher goes round a loop instead of calling itself: its scope variable is the parameter or
+							// the child scope a round created
+							r.Trivial(in.Pos(), key, "the scope variable of the dispatcher's own loop (the parameter, or the child scope created by a round); which scope each evaluation sees on each path is decided by D-DISPATCH")
 						} else {
 							if !byInterpretation(fn, in, callee, key) {
 								r.Bad(instrPos(in), key, "scope argument merged from several values: "+arg.String())
@@ -172,6 +176,35 @@ func ruleEScopeThread(p *Program, r *Reporter) {
 			}
 		}
 	}
+}
+
+// loopScopeVar: phi merges only the function's scope parameter, results of scope methods applied to the phi itself, and
+// the phi.
+func loopScopeVar(phi *ssa.Phi, scopeParam *ssa.Parameter, isScope func(types.Type) bool) bool {
+	seen := map[*ssa.Phi]bool{}
+	var ok func(v ssa.Value) bool
+	ok = func(v ssa.Value) bool {
+		switch x := v.(type) {
+		case *ssa.Parameter:
+			return x == scopeParam
+		case *ssa.Phi:
+			if seen[x] {
+				return true
+			}
+			seen[x] = true
+			for _, e := range x.Edges {
+				if !ok(e) {
+					return false
+				}
+			}
+			return true
+		case *ssa.Call:
+			cf := calleeOf(&x.Call)
+			return cf != nil && cf.Signature.Recv() != nil && isScope(cf.Signature.Recv().Type()) && isScope(x.Type()) && len(x.Call.Args) > 0 && ok(x.Call.Args[0])
+		}
+		return false
+	}
+	return ok(phi)
 }
 
 func isScopeMethodRecv(fn *ssa.Function, prm *ssa.Parameter) bool {
